@@ -27,6 +27,9 @@ type Scenario struct {
 	FailCmd   []string          `json:"fail_cmd,omitempty"` // labels whose command exits non-zero
 	// Expectation for C05: labels that cannot be built (for the exit-status oracle); nil = everything builds.
 	MustFail bool `json:"must_fail,omitempty"`
+	// Query: a query-style invocation (state.NeedBuild == false): targets are only activated, and built only where a
+	// subinclude() needs them.
+	Query bool `json:"query,omitempty"`
 }
 
 // Event is one observation.
@@ -40,8 +43,8 @@ type Event struct {
 type Obs struct {
 	Events   []Event
 	Returned bool
-	Dropped  int // results logged but never forwarded when the results channel was closed
-	Failed   bool // state.Failures() "anything"
+	Dropped  int                 // results logged but never forwarded when the results channel was closed
+	Failed   bool                // state.Failures() "anything"
 	Deps     map[string][]string // resolved deps per built target (from the graph at the end)
 }
 
@@ -103,7 +106,7 @@ func Body(sc Scenario, obs *Obs) func() {
 				if strings.HasPrefix(e, "OUTS=") {
 					for _, o := range strings.Fields(strings.TrimPrefix(e, "OUTS=")) {
 						os.MkdirAll(filepath.Dir(filepath.Join(dir, o)), 0o755)
-						os.WriteFile(filepath.Join(dir, o), []byte(label+"\n"), 0o644)
+						os.WriteFile(filepath.Join(dir, o), []byte("# "+label+"\n"), 0o644) // (a comment: an output may be subincluded)
 					}
 				}
 			}
@@ -126,7 +129,7 @@ func Body(sc Scenario, obs *Obs) func() {
 		state := core.NewBuildState(config)
 		state.Cache = &fakeCache{obs: obs}
 		state.KeepGoing = sc.KeepGoing
-		state.NeedBuild = true
+		state.NeedBuild = !sc.Query
 		var labels []core.BuildLabel
 		for _, t := range sc.Targets {
 			labels = append(labels, core.ParseBuildLabel(t, ""))
